@@ -130,3 +130,14 @@ MUTANTS += [
     ('C15-revert-D13', ['C15'], RU, "isinstance(element, SpurGear | WormGear)", "isinstance(element, SpurGear)"),
     ('C15-limit-current-2i0-dropped', ['C15'], 'gearpy/motor_control/rules/start_limit_current.py', "                            2*no_load_electric_current", "                            no_load_electric_current"),
 ]
+EX = 'gearpy/utils/export.py'
+MUTANTS += [
+    ('C18-revert-D7-pwm-column', ['C18'], P, "                if 'pwm' in variables:\n                    interpolation_function = interp1d(\n                        x=[instant.to('sec').value for instant in self.time],\n                        y=element.time_variables['pwm']\n                    )\n                    data.loc[element.name, 'pwm'] = interpolation_function(\n                        target_time.to('sec').value\n                    ).take(0)",
+     "                if True:\n                    interpolation_function = interp1d(\n                        x=[instant.to('sec').value for instant in self.time],\n                        y=element.time_variables['pwm']\n                    )\n                    data.loc[element.name, 'pwm'] = interpolation_function(\n                        target_time.to('sec').value\n                    ).take(0)"),
+    ('C18-revert-D8-nesting', ['C18'], P, "                if element.tangential_force_is_computable:\n                    if 'tangential force' in variables:\n                        variable_list.append('tangential force')\n                        unit_list.append(force_unit)\n                    if isinstance(element, GearBase):",
+     "                if element.tangential_force_is_computable and 'tangential force' in variables:\n                    if 'tangential force' in variables:\n                        variable_list.append('tangential force')\n                        unit_list.append(force_unit)\n                    if isinstance(element, GearBase):"),
+    ('C18-driving-torque-wrong-unit', ['C18'], P, "                    driving_torque_unit,\n                    load_torque_unit\n                ]\n            ):", "                    torque_unit,\n                    load_torque_unit\n                ]\n            ):"),
+    ('C18-target-time-raw', ['C18'], P, "                    data.loc[element.name, f'{variable} ({unit})'] = \\\n                        interpolation_function(\n                        target_time.to('sec').value\n                    ).take(0)", "                    data.loc[element.name, f'{variable} ({unit})'] = \\\n                        interpolation_function(\n                        min(target_time.value, self.time[-1].to('sec').value)\n                    ).take(0)"),
+    ('C18-export-load-in-torque-unit', ['C18'], EX, "        'load torque': load_torque_unit,", "        'load torque': torque_unit,"),
+    ('C18-export-time-raw', ['C18'], EX, "        instant.to(time_unit).value for instant in time_array", "        instant.value for instant in time_array"),
+]
